@@ -55,3 +55,85 @@ def tok_blocks(path, msf):
 def layout(path):
     """line-level layout for Writer!WellFormed: every line as a list of byte values"""
     return [list(l) for l in _lines(path)]
+
+
+# ---- layouts for Writer!WellFormed: fields only, no interpretation -------------------------------
+import re as _re
+
+
+def _ints(b):
+    return list(b)
+
+
+def layout_fasta(path):
+    """records: header name and the list of line lengths; rows: concatenation"""
+    recs = []
+    for line in _lines(path):
+        if line.startswith(b">"):
+            recs.append(dict(name=_ints(line[1:]), linelens=[], row=[]))
+        elif recs:
+            recs[-1]["linelens"].append(len(line))
+            recs[-1]["row"].extend(_ints(line))
+        else:
+            recs.append(dict(name=[], linelens=[len(line)], row=_ints(line), orphan=1))
+    return dict(e="Layout", fmt="fasta", records=recs)
+
+
+def _blocks(ls):
+    """consecutive non-blank lines form a block; a line is split at its first run of blanks into name / segment"""
+    blocks, cur = [], []
+    for l in ls:
+        if not l.strip():
+            if cur:
+                blocks.append(cur)
+                cur = []
+            continue
+        m = _re.match(rb"^(\S+)( *)(.*)$", l)
+        if m:
+            cur.append(dict(name=_ints(m.group(1)), pad=len(m.group(2)), seg=_ints(m.group(3)), namecol=len(m.group(1)) + len(m.group(2))))
+        else:
+            cur.append(dict(name=[], pad=0, seg=_ints(l), namecol=0, odd=1))
+    if cur:
+        blocks.append(cur)
+    return blocks
+
+
+def layout_clu(path):
+    ls = _lines(path)
+    header = ls[0] if ls else b""
+    return dict(e="Layout", fmt="clu", header=_ints(header), header_has_msa=1 if b"multiple sequence alignment" in header or b"CLUSTAL" in header else 0,
+                second_blank=1 if len(ls) > 1 and not ls[1].strip() else 0, blocks=_blocks(ls[1:]))
+
+
+def layout_msf(path):
+    ls = _lines(path)
+    out = dict(e="Layout", fmt="msf", bang="", msf_len=-1, msf_type="", msf_check=-1, names=[], has_sep=0, blocks=[])
+    sep = None
+    for i, l in enumerate(ls):
+        if l.strip() == b"//":
+            sep = i
+            break
+    head = ls[:sep] if sep is not None else ls
+    out["has_sep"] = 1 if sep is not None else 0
+    for l in head:
+        m = _re.match(rb"^!!(\w\w)_MULTIPLE_ALIGNMENT", l)
+        if m:
+            out["bang"] = m.group(1).decode()
+        m = _re.search(rb"MSF:\s*(\d+)\s+Type:\s*(\S)\s.*Check:\s*(\d+)\s+\.\.", l)
+        if m:
+            out["msf_len"] = int(m.group(1))
+            out["msf_type"] = m.group(2).decode()
+            out["msf_check"] = int(m.group(3))
+        m = _re.match(rb"^\s*Name:\s*(\S+)\s+Len:\s*(\d+)\s+Check:\s*(\d+)\s+Weight:\s*(\S+)", l)
+        if m:
+            out["names"].append(dict(name=_ints(m.group(1)), len=int(m.group(2)), check=int(m.group(3))))
+    out["blocks"] = _blocks(ls[sep + 1:]) if sep is not None else []
+    return out
+
+
+def layout(path, fmt):
+    if "msf" in fmt:
+        return layout_msf(path)
+    if "clu" in fmt:
+        return layout_clu(path)
+    return layout_fasta(path)
